@@ -40,7 +40,8 @@ def run_tests(wt, tag):
 def main():
     prop, x = sys.argv[1], sys.argv[2]
     notests = "--no-tests" in sys.argv
-    wt = f"/tmp/wt/tw_{prop}"
+    rnd = next((a.split("=")[1] for a in sys.argv if a.startswith("--round=")), "")
+    wt = f"/tmp/wt/{rnd or 'tw'}_{prop}"
     patch = f"{wt}/twin_{x}.patch"
     meta = {"property": prop, "variant": x}
     os.makedirs("/tmp/scratch", exist_ok=True)
@@ -73,7 +74,8 @@ def main():
         print("     ", d[:300])
     for e in errors:
         print("     ", e[:300])
-    d = os.path.join(VERIF, "twins", f"{prop}-{x}")
+    d = os.path.join(VERIF, "twins", f"{prop}-{rnd + '-' if rnd else ''}{x}")
+    meta["round"] = rnd or "tw1"
     os.makedirs(d, exist_ok=True)
     shutil.copy(patch, os.path.join(d, "patch.diff"))
     if os.path.exists(f"{wt}/twin_{x}.txt"):
